@@ -180,6 +180,15 @@ void root() {
       int n = (int)gen_range(3, tier ? 30 : 14);
       spawn(proc, [hi, n]() { ops_loop(hi, n); });
       wait_all_others();
+      // a handle opened while the queue holds data (possibly full) joins the same queue: opening changes nothing
+      if (S->nh < 4 && gen(3) == 0) {
+        size_t used0 = S->model.size();
+        int np = 1 + (int)gen(2);
+        size_t arg = gen(2) ? S->cap : S->cap + 1 + gen(3000);
+        spawn(np, [arg]() { int h = open_handle(arg); do_op(h, K_USED, 0); });
+        wait_all_others();
+        probe(used0 == S->cap ? "buf.opened_while_full" : used0 ? "buf.opened_while_non_empty" : "buf.opened_while_empty");
+      }
     }
     // invariant through every handle: used + free == capacity
     for (int h = 0; h < S->nh; h++) { spawn(S->hs[h].proc, [h]() { do_op(h, K_USED, 0); do_op(h, K_FREE, 0); }); wait_all_others(); }
